@@ -89,6 +89,7 @@ static void op_effect(int k)
 	vfs_tick(1);
 	if (ops[k].kind == K_EXT) {
 		char buf[64];
+		nx_trace_ok = 0;
 		snprintf(buf, sizeof(buf), "changed behind the editor %ld\n", vfs_clock);
 		vfs_put(ops[k].arg, buf, -1);
 		vfs_tick(1);
@@ -299,8 +300,8 @@ static unsigned long long nx_state_hash(void)
 static int nx_leaf_bytes(char *buf, int max)
 {
 	(void) max;
-	strcpy(buf, "q!\n");
-	return 3;
+	strcpy(buf, "w! out\n.=\nb\nq!\n");
+	return strlen(buf);
 }
 static void nx_at_exit(void)
 {
@@ -417,6 +418,8 @@ int main(int argc, char **argv)
 	nx_hist_name = hist_name;
 	nx_op_effect = op_effect;
 	nx_pre_state = pre_state;
+	nx_trace_every = atoi(nv_arg(argc, argv, "trace", nv_thorough ? "499" : "67"));
+	nx_trace_stdout = 1;
 	setenv("EXINIT", "", 1);
 	if (nv_arg(argc, argv, "cfg", NULL)) {
 		run_config(atoi(nv_arg(argc, argv, "cfg", "0")), depth);
